@@ -162,6 +162,11 @@ class Engine:
                 except expected_exceptions as e:  # an exception of the real code is an outcome
                     val = e
                     outcome = "raise"
+                # a path whose accumulated assumptions are contradictory proves everything: drop it (the cover
+                # obligation then reports a case without feasible paths)
+                if self.pc and not self._sat(z3.BoolVal(True)):
+                    self.infeasible = getattr(self, "infeasible", 0) + 1
+                    continue
                 paths.append(Path(list(self.pc), list(self.taken), outcome, val, self.extra))
         finally:
             Engine.current = prev
